@@ -12,6 +12,11 @@ func init() {
 		if err := c06.Run(r); err != nil {
 			return err
 		}
+		if len(r.Failures) >= 8 {
+			// the session core itself is broken (failing inputs recorded): the helper scenarios of
+			// C15 / C18 would only add watchdogs
+			return nil
+		}
 		if r.Replay == "" && !r.Race() {
 			// the extension helpers that block on a correlated reply
 			c15.RunWaits(r)
@@ -22,5 +27,12 @@ func init() {
 		}
 		return nil
 	}
-	facts["C06"] = func(repo string) (string, error) { return c15.FactsNS(repo, "C06") }
+	facts["C06"] = func(repo string) (string, error) {
+		base, err := c15.FactsNS(repo, "C06")
+		if err != nil {
+			return "", err
+		}
+		// round E: probe facts (behaviour of the linked code, no source text)
+		return c06.Facts(base), nil
+	}
 }
